@@ -20,6 +20,12 @@ Theorem C06_and_then_is_sequencing : forall lc g a b st tr,
   run g lc (init (HThen a b)) st tr = run g lc (init (HSeq a b)) st tr.
 Proof. exact and_then_is_sequencing. Qed.
 
+(* a result transformer around a handler (discard, Some(..), map) changes nothing of what it does: the
+   modifications reported from inside it are acted on exactly as without it *)
+Theorem C06_result_transformers_are_transparent : forall lc g a st tr,
+  run g lc (init (HWrap a)) st tr = run g lc (init a) st tr.
+Proof. exact wrap_is_transparent. Qed.
+
 (* the result does not depend on how long the machine is allowed to run *)
 Theorem C06_deterministic : forall lc g1 g2 s st tr r1 r2,
   run g1 lc s st tr = Some r1 -> run g2 lc s st tr = Some r2 -> r1 = r2.
